@@ -40,7 +40,8 @@ Definition sha1_finish (c : ctx1) : ctx1 * list N :=
   let b3 := b2 ++ be_bytes 8 total_bits in
   let c' := fold_left sha1_transform (chunks 64 b3)
               {| s_h := s_h c; s_transforms := s_transforms c; s_buf := b3 |} in
-  (c', words_bytes 4 (s_h c')).
+  (* wipe_buffer(): the buffered bytes are zeroed once the digest is produced *)
+  ({| s_h := s_h c'; s_transforms := s_transforms c'; s_buf := map (fun _ => 0) (s_buf c') |}, words_bytes 4 (s_h c')).
 
 Definition fresh1 : ctx1 := {| s_h := []; s_transforms := 0; s_buf := [] |}.
 Definition sha1_oneshot (c : ctx1) (msg : list N) : list N := snd (sha1_finish (sha1_update (sha1_init c) msg)).
